@@ -1,6 +1,7 @@
 package fingerprint
 
 import (
+	"errors"
 	"os"
 	"sort"
 
@@ -12,7 +13,7 @@ import (
 func Globs(dir string, globs []*ast.Glob) ([]string, error) {
 	resultMap := make(map[string]bool)
 	for _, g := range globs {
-		matches, err := glob(dir, g.Glob)
+		matches, err := globExisting(dir, g.Glob, true)
 		if err != nil {
 			continue
 		}
@@ -23,7 +24,14 @@ func Globs(dir string, globs []*ast.Glob) ([]string, error) {
 	return collectKeys(resultMap), nil
 }
 
+// glob returns the files an entry expands to; a file that does not exist is an error.
 func glob(dir string, g string) ([]string, error) {
+	return globExisting(dir, g, false)
+}
+
+// globExisting is glob, except that with skipMissing a missing file (one alternative
+// of a brace expansion, say) is left out instead of failing the whole entry.
+func globExisting(dir string, g string, skipMissing bool) ([]string, error) {
 	g = filepathext.SmartJoin(dir, g)
 
 	fs, err := execext.ExpandFields(g)
@@ -36,6 +44,9 @@ func glob(dir string, g string) ([]string, error) {
 	for _, f := range fs {
 		info, err := os.Stat(f)
 		if err != nil {
+			if skipMissing && errors.Is(err, os.ErrNotExist) {
+				continue
+			}
 			return nil, err
 		}
 		if info.IsDir() {
